@@ -340,6 +340,52 @@ def classify_crash(exc, events):
 
 # ------------------------------------------------------------------ level B: connection
 
+def shared_callable(ctx):
+    """One callable registered under several rules (a monitor object whose method subscribes to three things): it is
+    invoked once PER matching rule - a signal satisfying two of its rules reaches it twice - and removing one of the rules
+    takes away exactly that rule's invocations."""
+    class Monitor:
+        def __init__(self):
+            self.seen = []
+
+        def on_signal(self, m):
+            self.seen.append(m.member)
+    case = {'kind': 'shared-callable'}
+    for style in ('function', 'bound-method'):
+        router = ROUTER.MessageRouter()
+        mon = Monitor()
+        seen = []
+
+        def plain(m_):
+            seen.append(m_.member)
+        log = seen if style == 'function' else mon.seen
+        rules = [{'interface': 'a.b'}, {'member': 'M'}, {'path_namespace': '/a'}, {'interface': 'a.b', 'member': 'M'}]
+        rids = []
+        for rule in rules:
+            kw = rule_kwargs(rule)
+            rids.append(router.addMatch(plain if style == 'function' else mon.on_signal, **kw))
+        signals = [{'interface': 'a.b', 'member': 'M', 'path': '/a/x'}, {'interface': 'a.b', 'member': 'N', 'path': '/b'},
+                   {'interface': 'c.d', 'member': 'M', 'path': '/a'}, {'interface': 'c.d', 'member': 'N', 'path': '/zz'}]
+        active = set(range(len(rules)))
+        for round_ in range(len(rules) + 1):
+            for sg in signals:
+                msg = {'type': 4, 'interface': sg['interface'], 'member': sg['member'], 'path': sg['path'],
+                       'destination': None, 'sender': SENDER, 'body': []}
+                del log[:]
+                router.routeMessage(MSG.parseMessage(build_raw(msg, 3000 + round_), []))
+                want = sum(1 for k in active if RMATCH.matches(rules[k], effective(msg)))
+                ctx.count('evaluations')
+                ctx.count('shared_callable_signals')
+                if len(log) != want:
+                    ctx.report('shared-callable-count', 'a %s registered under %d rules was invoked %d times for a signal that '
+                               'satisfies %d of its (still registered) rules' % (style, len(active), len(log), want),
+                               {'style': style, 'rules': [rules[k] for k in sorted(active)], 'signal': sg}, case)
+                    return
+            if round_ < len(rules):
+                router.delMatch(rids[round_])
+                active.discard(round_)
+
+
 def connection_case(ctx, seed, idx):
     r = random.Random('%s/c12conn/%s' % (seed, idx))
     case = {'kind': 'conn', 'idx': idx}
@@ -612,6 +658,8 @@ def run(ctx):
             proxy_case(ctx, ctx.seed, i * sn + si)
         if ctx.stop_early() or (i % 64 == 0 and ctx.out_of_time()):
             break
+    if si == 0:
+        shared_callable(ctx)
     ctx.sample({'rule': {'path_namespace': '/a/b', 'args': {0: 'x'}}, 'near_miss_signal': {'path': '/a/bc', 'body': ['x']}})
     ctx.sample({'rule': {'arg_paths': {0: '/a/b/'}}, 'matching_args': ['/a/b/', '/a/b/c', '/a/', '/'], 'non_matching': ['/a/b', '/a/bc']})
     ctx.require(ctx.counters.get('matches', 0) > 100, 'too few matching pairs')
@@ -622,4 +670,7 @@ def run(ctx):
 def replay(ctx, rp):
     case = rp['case']
     seed = rp.get('seed', 0)
+    if case['kind'] == 'shared-callable':
+        shared_callable(ctx)
+        return
     {'router': router_case, 'conn': connection_case, 'proxy': proxy_case}[case['kind']](ctx, seed, case['idx'])
